@@ -172,7 +172,7 @@ class PipeRelay(Relay):
         """
         error_msg = stdout.rstrip() or stderr.rstrip() or 'Delivery failed'
         if isinstance(error_msg, bytes):
-            error_msg = error_msg.decode('utf-8')
+            error_msg = error_msg.decode('utf-8', 'replace')
         if self._permanent_error_pattern.match(error_msg):
             reply = Reply('550', error_msg)
             raise PermanentRelayError(error_msg, reply)
@@ -211,6 +211,11 @@ class MaildropRelay(PipeRelay):
         super(MaildropRelay, self).__init__(args, timeout)
 
     def raise_error(self, status, stdout, stderr):
+        # The process output arrives as bytes.
+        if isinstance(stdout, bytes):
+            stdout = stdout.decode('utf-8', 'replace')
+        if isinstance(stderr, bytes):
+            stderr = stderr.decode('utf-8', 'replace')
         error_msg = 'Delivery failed'
         if stdout.startswith('maildrop: '):
             error_msg = stdout[10:].rstrip()
@@ -250,6 +255,11 @@ class DovecotLdaRelay(PipeRelay):
         super(DovecotLdaRelay, self).__init__(args, timeout)
 
     def raise_error(self, status, stdout, stderr):
+        # The process output arrives as bytes.
+        if isinstance(stdout, bytes):
+            stdout = stdout.decode('utf-8', 'replace')
+        if isinstance(stderr, bytes):
+            stderr = stderr.decode('utf-8', 'replace')
         error_msg = stdout.rstrip() or stderr.rstrip() or 'LDA delivery failed'
         if status == self.EX_TEMPFAIL:
             reply = Reply('450', error_msg)
